@@ -24,11 +24,11 @@ def run(tier):
     quick = tier == 'quick'
     nid = [0]
 
-    def gen(n, nmax, kind='I', hist=True):
+    def gen(n, nmax, kind='I', hist=True, weights=False):
         out = []
         for _ in range(n):
             nid[0] += 1
-            g = L.gen_instance(rng, nid[0], nmax, kind, hist)
+            g = L.gen_instance(rng, nid[0], nmax, kind, hist, weights)
             # C02 is about solve(): make the last op a solve
             if g['ops'][-1][0] == 'F':
                 g['ops'][-1] = ('S',)
@@ -45,6 +45,11 @@ def run(tier):
         import copy
         c2 = copy.deepcopy(corpus)
         sets.append(('corpus-avoid', 'avoid', c2, True))
+    corpus3 = L.load_corpus('c01_weight_histories.txt')
+    if corpus3:
+        import copy
+        sets.append(('corpus-weights', 'vpsc', corpus3, True))
+        sets.append(('corpus-weights-avoid', 'avoid', copy.deepcopy(corpus3), True))
     base = gen(1200 if quick else 8000, 12)
     twins = []
     for ins in base:
@@ -55,6 +60,11 @@ def run(tier):
     sets.append(('inc-avoid', 'avoid', gen(600 if quick else 4000, 12), False))
     sets.append(('static-vpsc', 'vpsc', gen(300 if quick else 2000, 12, 'S'), False))
     sets.append(('tiny-enum', 'vpsc', gen(300 if quick else 3000, 5), True))
+    # re-solves after Variable::weight was changed on the live solver (pin / unpin idiom; also before the first solve):
+    # the certificate is computed with the weights in force at that solve
+    sets.append(('inc-vpsc-weights', 'vpsc', gen(300 if quick else 3000, 10, 'I', True, True), False))
+    sets.append(('inc-avoid-weights', 'avoid', gen(150 if quick else 1500, 10, 'I', True, True), False))
+    sets.append(('tiny-enum-weights', 'vpsc', gen(150 if quick else 1500, 5, 'I', True, True), True))
     sets.append(('inc-vpsc-large', 'vpsc', gen(40 if quick else 500, 40), False))
     if not quick:
         sets.append(('inc-avoid-large', 'avoid', gen(250, 40), False))
@@ -153,7 +163,7 @@ def run(tier):
     res.cov.update({'evaluations': evals, 'distinct_nontrivial': len(nontrivial),
                     'rule': 'one evaluation = one successful solve() of the real solver with no constraint flagged, decided against the kkt_ok-certified '
                             'unique optimum (1e-5 * problem scale); both solvers (IncSolver incl. the libavoid copy, static Solver on DAGs), scaled variables, '
-                            're-solve histories, permuted twins; non-trivial = distinct instances whose optimum has at least one active constraint',
+                            're-solve histories (constraints added, desired positions moved, Variable::weight changed - sets *-weights), permuted twins; non-trivial = distinct instances whose optimum has at least one active constraint',
                     'exhaustive': False,
                     'exhaustive_note': 'set exhaustive-small (with the exact active-set enumeration oracle always on): ' +
                                        ('1/5 of the n=2 family, rotating with the seed' if quick else 'the complete n=2 and n=3 families of vlib/c01lib.gen_exhaustive'),
